@@ -70,10 +70,42 @@ Theorem C18_ext_provide_delivered_single_record : forall zinflate fs k z data t,
 Proof. exact ext_provide_text. Qed.
 
 (* The record carries |text|+1 bytes (the NUL is counted) and both receivers compare THAT with their
-   limit: C18_ext_c2s / C18_ext_s2c_* therefore cover texts of 0 .. limit-1 bytes.  A text whose length
-   EQUALS the limit (2^20 in the code as it is) is refused by both sides - finding
-   C18-ext-exact-1MiB-text, proposed repair notes/fix_C18_4.diff (the constant is regenerated from
-   the source, so with the repair "limit" becomes 2^20+1 and a 2^20-byte text is covered above). *)
+   record limit.  The code as it is (d41003f): record limit = text limit + 1 = 2^20 + 1 (regenerated from
+   the source each run; [C18_ext_limit_value] pins it, so a library that falls back to the former
+   `size > (1 << 20)` fails this obligation), hence EVERY text of 0..2^20 bytes passes the record check
+   in both directions ([C18_ext_c2s_full_range], [C18_ext_s2c_received_full_range_whole_message]). *)
+Theorem C18_ext_limit_value :
+  c18_ext_size_limit = c06_cut_text_limit + 1 /\ c18_lvc_ext_size_limit = c18_lvc_cut_limit + 1 /\
+  c06_cut_text_limit = 2 ^ 20 /\ c18_lvc_cut_limit = 2 ^ 20.
+Proof. exact ext_limit_value. Qed.
+
+Theorem C18_ext_c2s_full_range : forall zinflate zsync fs cfg o c b1 b2 l text bytes r,
+  c_state c = SNormal -> c_closed c = false -> c_viewonly c = false -> k_ext (c_clip c) = true ->
+  let content := be32 (Z.of_nat (length text) + 1) ++ text ++ [0] in
+  zinflate (zsync content) = (content, ZMore) ->
+  Z.of_nat (length text) <= 2 ^ 20 ->
+  4 + Z.of_nat (length (zsync content)) <= c06_cut_text_limit ->
+  lvc_send_utf8 zsync l text = Some bytes ->
+  st_bytes (c_in c) = bytes ++ r ->
+  let a1 := handle_client (ext_cut_real zinflate fs) cfg o c b1 in
+  let a2 := handle_client (ext_cut_real zinflate fs) cfg (a_owner a1) (a_client a1) b2 in
+  a_events a1 = [] /\ a_events a2 = [EvCutUTF8 (c_id c) (text ++ [0]) 0] /\
+  c_closed (a_client a2) = false /\ st_bytes (c_in (a_client a2)) = r /\ c_clip (a_client a2) = c_clip c.
+Proof. exact ext_c2s_full. Qed.
+
+Theorem C18_ext_s2c_received_full_range_whole_message : forall zinflate zcompress xl l text,
+  l_utf8 l = true -> Z.of_nat (length text) <= 2 ^ 20 ->
+  let content := be32 (Z.of_nat (length text) + 1) ++ text ++ [0] in
+  zinflate (zcompress content) = (content, ZEnd) ->
+  4 + Z.of_nat (length (zcompress content)) <= c18_lvc_cut_limit ->
+  lvc_recv zinflate xl l (enc_out zcompress (OProvide content)) = (l, [GotCutUTF8 (text ++ [0]) 0], true).
+Proof. exact lvc_recv_provide_text. Qed.
+
+(* Regression witnesses of the former limit (finding C18-ext-exact-1MiB-text, fixed by d41003f): for
+   WHATEVER record limit the source has, a text as long as that limit is refused by both receivers and
+   only its sender is closed.  With the former constant 2^20 this hit legitimate 2^20-byte texts; with
+   the constant as it is now it says that a text of 2^20 + 1 bytes - one more than any sender may
+   offer - is refused. *)
 Theorem C18_ext_exact_limit_closes : forall zinflate fs vo k z text t,
   Z.of_nat (length text) = c18_ext_size_limit ->
   zinflate z = (be32 (Z.of_nat (length text) + 1) ++ text ++ [0], t) ->
